@@ -784,8 +784,9 @@ def _fillgenerator(shape, dtype='float64', fill=0., fillfunc=None,
         raise ValueError("either 'fill' or 'fillfunc' should be provided, "
                          "not both")
     if chunklen is None:
-        chunklen = max((80 * 1024 ** 2) // (product(shape[1:]) *
-                                            dtype.itemsize), 1)
+        # rows hold no bytes if one of the other dimensions has length 0
+        chunklen = max((80 * 1024 ** 2) // max(product(shape[1:]) *
+                                               dtype.itemsize, 1), 1)
     nchunks, restlen = divmod(shape[0], chunklen)
     chunkshape = [chunklen] + list(shape[1:])
     chunk = np.empty(chunkshape, dtype=dtype)
@@ -804,8 +805,9 @@ def _fillgenerator(shape, dtype='float64', fill=0., fillfunc=None,
 def _archunkgenerator(array, dtype=None, chunklen=None):
     if chunklen is None:  # we try to make a reasonable guess
         if hasattr(array, 'shape') and hasattr(array, 'dtype'):
-            chunklen = (80 * 1024 ** 2) // (product(array.shape[1:]) *
-                                                array.dtype.itemsize)
+            # rows hold no bytes if one of the other dimensions has length 0
+            chunklen = (80 * 1024 ** 2) // max(product(array.shape[1:]) *
+                                               array.dtype.itemsize, 1)
         else:
             chunklen = 1024 ** 2
     chunklen = max(chunklen, 1)
